@@ -306,9 +306,10 @@ pub fn run(ctx: &Ctx) -> i32 {
     // sub-spaces are the same, their random surroundings differ), as many rounds as fit in a few
     // minutes: a trigger that needs two independent fields to take particular values at once
     // gets rounds x samples chances.
-    if ctx.thorough() && ctx.prop != "C01" {
+    if ctx.thorough() {
         type W0 = fn(&Ctx, &mut Collector, &mut serde_json::Value);
         let own: Option<W0> = match ctx.prop.as_str() {
+            "C01" => Some(c01),
             "C02" => Some(c02),
             "C03" => Some(c03),
             "C04" => Some(c04),
